@@ -5,8 +5,9 @@ from contracts.workspace_io import CloseContract
 from contracts.histories import ApiHistories
 from contracts.concat import ConcatHistories as _CH
 from contracts.copy_wf import CopiesKeepFilesValid as _CKV
+from contracts.copying import CopyNative as _CN
 from contracts.surveys import EMMetadataSet as _EMS, TransmittersSet as _TS, ReceiversSet as _RS, IndependentSurveysFrame as _ISF
-CONTRACTS = list(_H) + [AddSaveConcatenated, OpenResetsRegistries, ParentSet, FetchHandleStub, WriteAttributes, CloseContract, ApiHistories] + list(_ALLOF) + [_CH] + [_EMS, _TS, _RS, _ISF, _CKV]
+CONTRACTS = list(_H) + [AddSaveConcatenated, OpenResetsRegistries, ParentSet, FetchHandleStub, WriteAttributes, CloseContract, ApiHistories] + list(_ALLOF) + [_CH] + [_EMS, _TS, _RS, _ISF, _CKV, _CN]
 
 MANIFEST = {
     "category": "proof",
